@@ -21,7 +21,7 @@ struct Profile {
   // history op weights
   int w_build = 10, w_edit = 6, w_touch = 2, w_del_out = 3, w_change_cmd = 2, w_change_rsp = 1,
       w_manifest_edit = 0, w_regen = 1, w_del_log = 1, w_clean = 0, w_cleandead = 0, w_tool_ro = 0,
-      w_dry = 0, w_recompact = 0, w_restat_tool = 0, w_del_depfile = 1, w_edit_includes = 2, w_empty_source = 1, w_inflate_log = 1, w_include_churn = 2, w_block_dir = 0, w_missing_source = 0, w_missing_dyndep_source = 0, w_dyndep_stir = 0;
+      w_dry = 0, w_recompact = 0, w_restat_tool = 0, w_del_depfile = 1, w_edit_includes = 2, w_empty_source = 1, w_inflate_log = 1, w_include_churn = 2, w_block_dir = 0, w_missing_source = 0, w_missing_dyndep_source = 0, w_dyndep_restat_stir = 0, w_dyndep_stir = 0;
   int min_ops = 3, max_ops = 9;
   // fault kinds for builds (per mille of builds / commands)
   int pm_cmd_fail = 0;        // a command fails
